@@ -20,27 +20,56 @@ theorem sq_iabs (x : Int) : sq (iabs x) = sq x := by
   · exact sq_neg x
   · rfl
 
+theorem iabs_neg (x : Int) : iabs (-x) = iabs x := by unfold iabs; split <;> split <;> omega
+
 theorem axisDist_comm (t : Bool) (s a b : Int) : axisDist t s a b = axisDist t s b a := by
   unfold axisDist; rw [iabs_sub_comm]
 
 theorem axisDist_self (t : Bool) (s a : Int) (hs : 0 ≤ s) : axisDist t s a a = 0 := by
-  unfold axisDist iabs; cases t <;> simp <;> omega
+  have h : iabs (a - a) = 0 := by unfold iabs; split <;> omega
+  unfold axisDist; rw [h]
+  cases t <;> simp <;> omega
+
+/-- the torus part of `axisDist` in terms of the remainder `m` of `|a - b|` -/
+theorem axisDist_torus_def (s a b : Int) :
+    axisDist true s a b = min (iabs (a - b) % s) (s - iabs (a - b) % s) := by simp [axisDist]
+
+theorem axisDist_nonneg (t : Bool) (s a b : Int) (hs : 0 < s) : 0 ≤ axisDist t s a b := by
+  cases t
+  · simp only [axisDist, Bool.false_eq_true, if_false]; exact iabs_nonneg _
+  · rw [axisDist_torus_def]
+    have h0 := Int.emod_nonneg (iabs (a - b)) (show s ≠ 0 by omega)
+    have h1 := Int.emod_lt_of_pos (iabs (a - b)) hs
+    omega
+
+/-- `fmod` in terms of the remainder of the absolute value -/
+theorem fmodI_eq (x s : Int) : fmodI x s = if x < 0 then -(iabs x % s) else iabs x % s := by
+  unfold fmodI iabs; split <;> rfl
 
 /-- the heading along one axis is plus or minus the separation along that axis -/
-theorem axisHeading_eq_or_neg (t : Bool) (s a b : Int) (hs : 0 ≤ s) :
+theorem axisHeading_eq_or_neg (t : Bool) (s a b : Int) (hs : 0 < s) :
     axisHeading t s a b = axisDist t s a b ∨ axisHeading t s a b = -axisDist t s a b := by
-  unfold axisHeading axisDist
   cases t
-  · simp only [Bool.false_eq_true, if_false]; unfold iabs; split <;> omega
-  · simp only [if_true]
+  · simp only [axisHeading, axisDist, Bool.false_eq_true, if_false]; unfold iabs; split <;> omega
+  · rw [axisDist_torus_def, iabs_sub_comm a b]
+    simp only [axisHeading, if_true, fmodI_eq]
+    have h0 := Int.emod_nonneg (iabs (b - a)) (show s ≠ 0 by omega)
+    have h1 := Int.emod_lt_of_pos (iabs (b - a)) hs
+    generalize iabs (b - a) % s = m at *
     unfold sgn
     split
-    · rw [show (-1 : Int) * s = -s by omega]; unfold iabs; omega
     · split
-      · rw [show (0 : Int) * s = 0 by omega]; unfold iabs; omega
-      · rw [show (1 : Int) * s = s by omega]; unfold iabs; omega
+      · rw [show (-1 : Int) * s = -s by omega]; unfold iabs; split <;> split <;> split <;> omega
+      · split
+        · rw [show (0 : Int) * s = 0 by omega]; unfold iabs; split <;> split <;> omega
+        · omega
+    · split
+      · omega
+      · split
+        · rw [show (0 : Int) * s = 0 by omega]; unfold iabs; split <;> split <;> omega
+        · rw [show (1 : Int) * s = s by omega]; unfold iabs; split <;> split <;> split <;> omega
 
-theorem axisHeading_sq (t : Bool) (s a b : Int) (hs : 0 ≤ s) :
+theorem axisHeading_sq (t : Bool) (s a b : Int) (hs : 0 < s) :
     sq (axisHeading t s a b) = sq (axisDist t s a b) := by
   rcases axisHeading_eq_or_neg t s a b hs with h | h <;> rw [h]
   exact sq_neg _
@@ -50,24 +79,53 @@ theorem sgn_mul (x s : Int) : sgn x * s = if x < 0 then -s else if x = 0 then 0 
   · omega
   · split <;> omega
 
-/-- the heading along one axis of a torus, case by case: the direct difference while it is shorter than half
-    the circumference, the image through the edge when it is longer — and on the tie `|b - a| = s/2`
-    (`abs(h) < abs(inv)` is false) also the image through the edge, which is `a - b` -/
-theorem axisHeading_torus_cases (s a b : Int) (hd : iabs (b - a) ≤ s) :
+/-- for coordinates less than one circumference apart `fmod` changes nothing … -/
+theorem fmodI_small (x s : Int) (h : iabs x < s) : fmodI x s = x := by
+  have h0 := iabs_nonneg x
+  rw [fmodI_eq, Int.emod_eq_of_lt h0 h]; unfold iabs; split <;> omega
+
+/-- … and exactly one circumference apart it gives 0 -/
+theorem fmodI_full (x s : Int) (h : iabs x = s) : fmodI x s = 0 := by
+  rw [fmodI_eq, h, Int.emod_self]; split <;> rfl
+
+/-- the heading along one axis of a torus, case by case, for coordinates at most one circumference apart: the direct
+    difference while it is shorter than half the circumference, the image through the edge when it is longer — and on
+    the tie `|b - a| = s/2` (`abs(h) < abs(inv)` is false) also the image through the edge, which is `a - b` -/
+theorem axisHeading_torus_cases (s a b : Int) (hs : 0 < s) (hd : iabs (b - a) ≤ s) :
     (2 * iabs (b - a) < s → axisHeading true s a b = b - a) ∧
     (2 * iabs (b - a) = s → axisHeading true s a b = a - b) ∧
     (s < 2 * iabs (b - a) → axisHeading true s a b = b - a - sgn (b - a) * s) := by
-  simp only [axisHeading, if_true, sgn_mul]
-  refine ⟨fun h => ?_, fun h => ?_, fun h => ?_⟩
-  all_goals
-    unfold iabs at *
-    split <;> split <;> (try split) <;> (try split) <;> omega
+  by_cases hlt : iabs (b - a) < s
+  · simp only [axisHeading, if_true, fmodI_small _ _ hlt, sgn_mul]
+    refine ⟨fun h => ?_, fun h => ?_, fun h => ?_⟩
+    all_goals
+      unfold iabs at *
+      split <;> split <;> (try split) <;> (try split) <;> omega
+  · have he : iabs (b - a) = s := by omega
+    simp only [axisHeading, if_true, fmodI_full _ _ he, sgn_mul]
+    refine ⟨fun h => ?_, fun h => ?_, fun h => ?_⟩
+    all_goals
+      unfold iabs at *
+      (try split) <;> (try split) <;> (try split) <;> (try split) <;> omega
 
-/-- following the heading from `a` arrives at `b` or at one of its two neighbouring periodic images -/
-theorem axisHeading_reaches (s a b : Int) :
-    a + axisHeading true s a b = b ∨ a + axisHeading true s a b = b + s ∨ a + axisHeading true s a b = b - s := by
+/-- `fmod` moves a coordinate by a whole number of circumferences -/
+theorem fmodI_congr (x s : Int) : ∃ q : Int, fmodI x s = x + q * s := by
+  unfold fmodI
+  split
+  · refine ⟨(-x) / s, ?_⟩
+    rw [Int.emod_def, Int.mul_comm ((-x) / s) s]; omega
+  · refine ⟨-(x / s), ?_⟩
+    rw [Int.emod_def, Int.neg_mul, Int.mul_comm (x / s) s]; omega
+
+/-- following the heading from `a` arrives at `b` or at one of its periodic images -/
+theorem axisHeading_reaches (s a b : Int) : ∃ k : Int, a + axisHeading true s a b = b + k * s := by
+  obtain ⟨q, hq⟩ := fmodI_congr (b - a) s
   simp only [axisHeading, if_true, sgn_mul]
-  split <;> split <;> (try split) <;> omega
+  generalize fmodI (b - a) s = h at *
+  have e1 : (q + 1) * s = q * s + s := by rw [Int.add_mul]; omega
+  have e2 : (q - 1) * s = q * s - s := by rw [Int.sub_mul]; omega
+  repeat' split
+  all_goals first | exact ⟨q, by omega⟩ | exact ⟨q + 1, by omega⟩ | exact ⟨q - 1, by omega⟩
 
 theorem axisHeading_flat (s a b : Int) : axisHeading false s a b = b - a := by simp [axisHeading]
 
@@ -75,39 +133,118 @@ theorem sq_eq_zero {x : Int} (h : sq x = 0) : x = 0 := by
   unfold sq at h
   rcases Int.mul_eq_zero.mp h with h | h <;> exact h
 
-/-- the separation along one axis is 0 for equal coordinates and, on a torus, for coordinates exactly one
-    circumference apart (the two edges) — and for nothing else -/
+/-- `0 ≤ x ≤ |y|` implies `x² ≤ y²` -/
+theorem sq_le_sq_of_le_iabs {x y : Int} (h0 : 0 ≤ x) (h : x ≤ iabs y) : sq x ≤ sq y := by
+  rw [← sq_iabs y]; unfold sq
+  exact Int.mul_le_mul h h h0 (iabs_nonneg y)
+
+/-- the separation along one axis is 0 for equal coordinates and, on a torus, for coordinates a whole number of
+    circumferences apart — and for nothing else -/
 theorem axisDist_eq_zero_iff (t : Bool) (s a b : Int) (hs : 0 < s) :
-    axisDist t s a b = 0 ↔ a = b ∨ (t = true ∧ iabs (a - b) = s) := by
-  unfold axisDist
+    axisDist t s a b = 0 ↔ a = b ∨ (t = true ∧ iabs (a - b) % s = 0) := by
   cases t
-  · simp; unfold iabs; split <;> omega
-  · simp only [if_true, true_and]; unfold iabs; split <;> omega
+  · simp [axisDist]; unfold iabs; split <;> omega
+  · rw [axisDist_torus_def]
+    have h0 := Int.emod_nonneg (iabs (a - b)) (show s ≠ 0 by omega)
+    have h1 := Int.emod_lt_of_pos (iabs (a - b)) hs
+    simp only [true_and]
+    constructor
+    · intro h; right; omega
+    · rintro (h | h)
+      · subst h
+        have : iabs (a - a) = 0 := by unfold iabs; split <;> omega
+        rw [this]; simp; omega
+      · omega
+
+/-- a remainder 0 of `|a - b|` means: a whole number of circumferences apart -/
+theorem iabs_emod_eq_zero_iff (s a b : Int) : iabs (a - b) % s = 0 ↔ ∃ k : Int, a - b = k * s := by
+  constructor
+  · intro h
+    have hd := Int.emod_def (iabs (a - b)) s
+    rw [h] at hd
+    by_cases hab : a - b < 0
+    · refine ⟨-(iabs (a - b) / s), ?_⟩
+      rw [Int.neg_mul, Int.mul_comm (iabs (a - b) / s) s]
+      have : iabs (a - b) = -(a - b) := by unfold iabs; rw [if_pos hab]
+      omega
+    · refine ⟨iabs (a - b) / s, ?_⟩
+      rw [Int.mul_comm (iabs (a - b) / s) s]
+      have : iabs (a - b) = a - b := by unfold iabs; rw [if_neg hab]
+      omega
+  · rintro ⟨k, hk⟩
+    rw [hk]
+    unfold iabs; split
+    · rw [← Int.neg_mul]; exact Int.mul_emod_left _ _
+    · exact Int.mul_emod_left _ _
 
 /-- without a torus the separation is `|a - b|` -/
 theorem axisDist_flat (s a b : Int) : axisDist false s a b = iabs (a - b) := by simp [axisDist]
 
-/-- on a torus of circumference `s`, for two coordinates at most `s` apart, the separation is the
-    least `|a - b + k*s|` over all integers `k` (the distance to the nearest periodic image) … -/
-theorem axisDist_torus_le_image (s a b : Int) (hs : 0 < s) (hd : iabs (a - b) ≤ s) (k : Int) :
-    axisDist true s a b ≤ iabs (a - b + k * s) := by
-  simp only [axisDist, if_true]
-  rcases Int.lt_trichotomy k 0 with hk | hk | hk
-  · have h1 : 0 ≤ (-k - 1) * s := Int.mul_nonneg (by omega) (by omega)
-    have h2 : (-k - 1) * s = -(k * s) - s := by rw [Int.sub_mul, Int.neg_mul]; omega
-    unfold iabs at *; omega
-  · subst hk; simp; omega
-  · have h1 : 0 ≤ (k - 1) * s := Int.mul_nonneg (by omega) (by omega)
-    have h2 : (k - 1) * s = k * s - s := by rw [Int.sub_mul]; omega
-    unfold iabs at *; omega
+/-- a remainder `m` of `[0, s)`: no `m + j*s` is nearer to 0 than `min m (s - m)` -/
+theorem near_image_le (s m j : Int) (hs : 0 < s) (h0 : 0 ≤ m) (h1 : m < s) : min m (s - m) ≤ iabs (m + j * s) := by
+  by_cases hj : j < 0
+  · have h2 : 0 ≤ (-j - 1) * s := Int.mul_nonneg (by omega) (by omega)
+    have h3 : (-j - 1) * s = -(j * s) - s := by rw [Int.sub_mul, Int.neg_mul]; omega
+    unfold iabs; split <;> omega
+  · have h2 : 0 ≤ j * s := Int.mul_nonneg (by omega) (by omega)
+    unfold iabs; split <;> omega
 
-/-- … and it is attained by one of the images `k ∈ {-1, 0, 1}` -/
-theorem axisDist_torus_attained (s a b : Int) (hd : iabs (a - b) ≤ s) :
-    axisDist true s a b = iabs (a - b) ∨ axisDist true s a b = iabs (a - b + 1 * s) ∨
-    axisDist true s a b = iabs (a - b + (-1) * s) := by
-  simp only [axisDist, if_true]
-  rw [show (1 : Int) * s = s by omega, show (-1 : Int) * s = -s by omega]
-  unfold iabs at *; omega
+/-- on a torus of circumference `s` the separation of ANY two coordinates is the least `|a - b + k*s|` over all
+    integers `k` (the distance to the nearest periodic image) … -/
+theorem axisDist_torus_le_image (s a b : Int) (hs : 0 < s) (k : Int) :
+    axisDist true s a b ≤ iabs (a - b + k * s) := by
+  rw [axisDist_torus_def]
+  have hd := Int.emod_def (iabs (a - b)) s
+  have h0 := Int.emod_nonneg (iabs (a - b)) (show s ≠ 0 by omega)
+  have h1 := Int.emod_lt_of_pos (iabs (a - b)) hs
+  generalize iabs (a - b) / s = q at hd
+  by_cases hab : a - b < 0
+  · have e : iabs (a - b) = -(a - b) := by unfold iabs; rw [if_pos hab]
+    generalize iabs (a - b) % s = m at *
+    rw [e] at hd
+    have hk := near_image_le s m (q - k) hs h0 h1
+    have h4 : (q - k) * s = s * q - k * s := by rw [Int.sub_mul, Int.mul_comm q s]
+    have h5 : a - b + k * s = -(m + (q - k) * s) := by omega
+    rw [h5, iabs_neg]; exact hk
+  · have e : iabs (a - b) = a - b := by unfold iabs; rw [if_neg hab]
+    generalize iabs (a - b) % s = m at *
+    rw [e] at hd
+    have hk := near_image_le s m (q + k) hs h0 h1
+    have h4 : (q + k) * s = s * q + k * s := by rw [Int.add_mul, Int.mul_comm q s]
+    have h5 : a - b + k * s = m + (q + k) * s := by omega
+    rw [h5]; exact hk
+
+/-- … and it is attained by one of the images -/
+theorem axisDist_torus_attained (s a b : Int) (hs : 0 < s) :
+    ∃ k : Int, axisDist true s a b = iabs (a - b + k * s) := by
+  rw [axisDist_torus_def]
+  have hd := Int.emod_def (iabs (a - b)) s
+  have h0 := Int.emod_nonneg (iabs (a - b)) (show s ≠ 0 by omega)
+  have h1 := Int.emod_lt_of_pos (iabs (a - b)) hs
+  generalize iabs (a - b) / s = q at hd
+  by_cases hab : a - b < 0
+  · have e : iabs (a - b) = -(a - b) := by unfold iabs; rw [if_pos hab]
+    generalize iabs (a - b) % s = m at *
+    rw [e] at hd
+    by_cases hm : m ≤ s - m
+    · refine ⟨q, ?_⟩
+      rw [Int.mul_comm q s]; unfold iabs; split <;> omega
+    · refine ⟨q + 1, ?_⟩
+      rw [Int.add_mul, Int.mul_comm q s]; unfold iabs; split <;> omega
+  · have e : iabs (a - b) = a - b := by unfold iabs; rw [if_neg hab]
+    generalize iabs (a - b) % s = m at *
+    rw [e] at hd
+    by_cases hm : m ≤ s - m
+    · refine ⟨-q, ?_⟩
+      rw [Int.neg_mul, Int.mul_comm q s]; unfold iabs; split <;> omega
+    · refine ⟨-(q + 1), ?_⟩
+      rw [Int.neg_mul, Int.add_mul, Int.mul_comm q s]; unfold iabs; split <;> omega
+
+/-- for two coordinates less than one circumference apart (two points of the space) nothing is reduced: the separation
+    is `min(|a - b|, s - |a - b|)`, the value the code computed before repair CS3 -/
+theorem axisDist_torus_small (s a b : Int) (h : iabs (a - b) < s) :
+    axisDist true s a b = min (iabs (a - b)) (s - iabs (a - b)) := by
+  rw [axisDist_torus_def, Int.emod_eq_of_lt (iabs_nonneg _) h]
 
 /-- wrapping one coordinate into `[lo, lo + w)` -/
 theorem wrap_bounds (lo w x : Int) (hw : 0 < w) :
